@@ -140,6 +140,37 @@ func (b *Builder) reflectTypeArgBaseString(t types.Type) string {
 	case *types.Chan:
 		_, s := ChanDir(t.Dir())
 		return s + " " + b.reflectTypeArgString(t.Elem())
+	case *types.Signature:
+		// as funcStr, without parameter names and with path-qualified operands
+		repr := "func("
+		in := t.Params().Len()
+		for i := 0; i < in; i++ {
+			if i > 0 {
+				repr += ", "
+			}
+			it := t.Params().At(i).Type()
+			if s, ok := types.Unalias(it).(*types.Slice); ok && t.Variadic() && i == in-1 {
+				repr += "..." + b.reflectTypeArgString(s.Elem())
+			} else {
+				repr += b.reflectTypeArgString(it)
+			}
+		}
+		repr += ")"
+		switch out := t.Results().Len(); out {
+		case 0:
+		case 1:
+			repr += " " + b.reflectTypeArgString(t.Results().At(0).Type())
+		default:
+			repr += " ("
+			for i := 0; i < out; i++ {
+				if i > 0 {
+					repr += ", "
+				}
+				repr += b.reflectTypeArgString(t.Results().At(i).Type())
+			}
+			repr += ")"
+		}
+		return repr
 	}
 	return types.TypeString(t, reflectTypeArgPkgPath)
 }
